@@ -129,6 +129,7 @@ func (root *Root) getObjType(gqlType string) (obj *Object, input *Input, err err
 
 func (root *Root) assureType(sample interface{}, obj *Object) error {
 	meta := reflect.TypeOf(sample)
+	verifYield("assureType")
 	obj.mu.Lock()
 	defer obj.mu.Unlock()
 	if obj.meta != nil && obj.meta != meta {
@@ -150,6 +151,7 @@ func (root *Root) regInput(sample interface{}, input *Input) error {
 }
 
 func (root *Root) getReflectType(meta reflect.Type) (obj Type) {
+	verifYield("getReflectType")
 	for _, t := range root.types.list {
 		o, _ := t.(*Object)
 		if o != nil {
@@ -197,6 +199,7 @@ func (root *Root) regField(obj *Object, fd *FieldDef, goField string, args ...st
 	obj.mu.Lock()
 	meta := obj.meta
 	obj.mu.Unlock()
+	verifYield("regField")
 	if meta.Kind() == reflect.Ptr {
 		meta = meta.Elem()
 	}
@@ -1081,6 +1084,7 @@ func (root *Root) Resolve(field *Field, args map[string]interface{}) (result int
 
 func (root *Root) subscribe(sub *Subscription) {
 	sub.prep(root)
+	verifYield("subscribe")
 	root.subLock.Lock()
 	root.subscriptions = append(root.subscriptions, sub)
 	root.subLock.Unlock()
@@ -1088,6 +1092,7 @@ func (root *Root) subscribe(sub *Subscription) {
 
 // Unsubscribe from an event stream.
 func (root *Root) Unsubscribe(id string) (cnt int) {
+	verifYield("Unsubscribe")
 	root.subLock.Lock()
 	for i := len(root.subscriptions) - 1; 0 <= i; i-- {
 		s := root.subscriptions[i]
@@ -1109,6 +1114,7 @@ func (root *Root) AddEvent(id string, event interface{}) (cnt int, err error) {
 	vars := map[string]interface{}{}
 	var ea []error
 	var failed []*Subscription
+	verifYield("AddEvent")
 	root.subLock.Lock()
 	for _, s := range root.subscriptions {
 		if s.sub.Match(id) {
@@ -1125,6 +1131,7 @@ func (root *Root) AddEvent(id string, event interface{}) (cnt int, err error) {
 	if 0 < len(ea) {
 		err = Errors(ea)
 	}
+	verifYield("AddEvent.cleanup")
 	root.subLock.Lock()
 	for _, f := range failed {
 		for i := len(root.subscriptions) - 1; 0 <= i; i-- {
